@@ -116,6 +116,28 @@ Theorem C10_fork_isolated :
 Proof. exact (conj fork_isolated child_reset_empty). Qed.
 Print Assumptions C10_fork_isolated.
 
+(* Signals are blocked where they must be.  sig_lock is held by a thread only (a) outside iv_signal_handler with all
+   signals blocked by that thread (spin_lock_sigmask; iv_signal_event blocks them around the clearing of `active`),
+   or (b) inside iv_signal_handler / the hand-off of iv_signal_unregister; and iv_signal_handler is installed with a
+   full sa_mask (label LSaMask is accepted only with full = true), so it runs with every signal blocked.  Hence no
+   delivery can interrupt the holder of sig_lock and spin on it.  (The acceptor enforces both on the logs: a lock
+   taken with an open mask, or a handler installed with a partial sa_mask, is rejected -- and the monitor fails.) *)
+Theorem C10_signals_blocked :
+  (forall s, reachable s -> forall t, lock s = Some t ->
+     match stg s t with
+     | SIdle | SExit => masked s t = true
+     | SThr _ | SNeedLock _ => False
+     | SProc _ | SUnreg _ => True
+     end) /\
+  (forall s t sig s', step s (LSaMask t sig false) = Some s' -> False) /\
+  (forall s t s', step s (LLock t) = Some s' -> stg s t = SIdle -> masked s t = true).
+Proof.
+  split; [exact lock_masked_inv|]. split.
+  - intros s t sig s' H. discriminate H.
+  - intros s t s' H Hs. simpl in H. rewrite Hs in H. destruct (lock s); [discriminate|]. destruct (masked s t); [reflexivity|discriminate].
+Qed.
+Print Assumptions C10_signals_blocked.
+
 (* Structural invariant of every reachable state (G1 of DESIGN A.8, lock discipline). *)
 Theorem C10_invariant : forall s, reachable s -> Inv s.
 Proof. exact reachable_inv. Qed.
@@ -133,22 +155,18 @@ Print Assumptions C10_monitor_accepts.
    the delivery is handed to 103 (same tree); 103 handles it and is unregistered; the next delivery to
    thread 1 finds its thread set empty and falls back to the process set (1 and 101, under sig_lock). *)
 Definition ex_trace : list label :=
-  [LLock 0; LReg 0 1 10 false false 1000 (Some true); LUnlock 0;
-   LLock 1; LReg 1 101 10 false false 3000 None; LUnlock 1;
-   LLock 0; LReg 0 2 10 true true 2000 None; LUnlock 0;
-   LLock 1; LReg 1 102 10 true true 4000 None; LUnlock 1;
-   LLock 1; LReg 1 103 10 true true 5000 None; LUnlock 1;
-   LSigEnter 1 10 false; LSigEnter 0 10 false; LPost 1 102; LPost 0 2; LSigExit 0; LSigExit 1;
-   LRead 1 102; LClear 1 102; LHandler 1 102;
-   LSigEnter 1 10 false; LPost 1 102; LSigExit 1;
-   LRead 0 2; LClear 0 2; LHandler 0 2;
-   LLock 1; LUnreg 1 102 None; LPost 1 103; LUnlock 1;
-   LRead 1 103; LClear 1 103; LHandler 1 103;
-   LLock 1; LUnreg 1 103 None; LUnlock 1;
-   LSigEnter 1 10 false; LLock 1; LPost 1 1; LPost 1 101; LUnlock 1; LSigExit 1;
-   LRead 0 1; LLock 0; LClear 0 1; LUnlock 0; LHandler 0 1;
-   LRead 1 101; LLock 1; LClear 1 101; LUnlock 1; LHandler 1 101;
-   LBlock 0; LBlock 1].
+  [LMask 0 true; LLock 0; LSaMask 0 10 true; LReg 0 1 10 false false 1000 (Some true); LUnlock 0;
+   LMask 0 false; LMask 1 true; LLock 1; LReg 1 101 10 false false 3000 None; LUnlock 1; LMask 1 false;
+   LMask 0 true; LLock 0; LReg 0 2 10 true true 2000 None; LUnlock 0; LMask 0 false; LMask 1 true; LLock 1;
+   LReg 1 102 10 true true 4000 None; LUnlock 1; LMask 1 false; LMask 1 true; LLock 1;
+   LReg 1 103 10 true true 5000 None; LUnlock 1; LMask 1 false; LSigEnter 1 10 false; LSigEnter 0 10 false;
+   LPost 1 102; LPost 0 2; LSigExit 0; LSigExit 1; LRead 1 102; LClear 1 102; LHandler 1 102;
+   LSigEnter 1 10 false; LPost 1 102; LSigExit 1; LRead 0 2; LClear 0 2; LHandler 0 2; LMask 1 true; LLock 1;
+   LUnreg 1 102 None; LPost 1 103; LUnlock 1; LMask 1 false; LRead 1 103; LClear 1 103; LHandler 1 103;
+   LMask 1 true; LLock 1; LUnreg 1 103 None; LUnlock 1; LMask 1 false; LSigEnter 1 10 false; LLock 1;
+   LPost 1 1; LPost 1 101; LUnlock 1; LSigExit 1; LRead 0 1; LMask 0 true; LLock 0; LClear 0 1; LUnlock 0;
+   LMask 0 false; LHandler 0 1; LRead 1 101; LMask 1 true; LLock 1; LClear 1 101; LUnlock 1; LMask 1 false;
+   LHandler 1 101; LBlock 0; LBlock 1].
 
 Example C10_nonvacuous :
   accepts ex_trace = true /\ monitor true ex_trace = true /\
